@@ -441,6 +441,12 @@ func (s *Sim) finishReconcile(a *actor) {
 		rec.Panic = a.panicVal
 		rec.PanicStack = a.panicStack
 	}
+	if reps, stacks := takeCrashReports(); len(reps) > 0 && rec.Panic == nil {
+		// a panic inside a wait/retry condition: HandleCrash recovered it because the
+		// harness switches ReallyCrash off; as shipped it terminates the process
+		rec.Panic = reps[0] + " (recovered by HandleCrash in the harness; terminates the process as shipped)"
+		rec.PanicStack = stacks[0]
+	}
 	rec.Crashed = a.dead
 	known, failed := rec.Failed()
 	s.tracef("worker %s done key=%s failed=%v/%v calls=%d", a.name, rec.Key, known, failed, len(rec.Calls))
